@@ -374,7 +374,8 @@ def run(ctx):
         ok = len(cs) == 1 and bool(msgs) and all(len(c.args) >= 4 and norm(c.args[1]) == const and norm(c.args[3]) in [
             unparse(t) for x in walk_body_shallow(f.body) if isinstance(x, ast.Assign) and x.value is cs[0] for t in x.targets] for c in msgs)
         inner = [c for c in calls_in(f, "_encode_message_set")]
-        ok = ok and len(inner) == 1 and norm(cs[0].args[0]) in [unparse(t) for x in walk_body_shallow(f.body) if isinstance(x, ast.Assign) and x.value is inner[0] for t in x.targets]
+        ok = ok and len(inner) == 1 and (cs[0].args[0] is inner[0] or norm(cs[0].args[0]) in [
+            unparse(t) for x in walk_body_shallow(f.body) if isinstance(x, ast.Assign) and x.value is inner[0] for t in x.targets])
         r.check(ok, "kafkacodec:%s#pairing" % fn, "wrapper message does not carry attribute %s with the %s-compressed inner set" % (const, comp), where(f, f.node),
                 "consumers decompress with the wrong codec")
     cms = ctx.func("kafkacodec:create_message_set")
